@@ -478,9 +478,43 @@ func genHostileFile(r *PRNG, i int) KsFile {
 	c := []int{1, 1, 2, 0, -1, 5}[r.Intn(6)]
 	dklen := []int{32, 32, 32, 0, -1, -5, -64, 1, 16, 31, 33, 64, 1024, 1025, 100000}[r.Intn(15)]
 	ivLen := []int{16, 16, 16, 0, 1, 15, 17, 32}[r.Intn(8)]
-	salt := r.Bytes([]int{32, 0, 1, 64}[r.Intn(4)])
+	saltLen := []int{32, 0, 1, 64}[r.Intn(4)]
+	ctLen := []int{32, 0, 1, 31, 1000}[r.Intn(5)]
+	if r.Chance(0.5) {
+		// one-defect files: everything is well-formed and consistent (the password decrypts it) except one dimension, so
+		// that the code behind each single validation is reached
+		keep := r.Intn(9)
+		if keep != 0 {
+			ver = 3
+		}
+		if keep != 1 {
+			cipherName = "aes-128-ctr"
+		}
+		if keep != 2 {
+			kdfName = "pbkdf2"
+		}
+		if keep != 3 {
+			prf = "hmac-sha256"
+		}
+		if keep != 4 {
+			c = 1 + r.Intn(2)
+		}
+		if keep != 5 {
+			dklen = 32
+		}
+		if keep != 6 {
+			ivLen = 16
+		}
+		if keep != 7 {
+			saltLen = 32
+		}
+		if keep != 8 {
+			ctLen = 32
+		}
+	}
+	salt := r.Bytes(saltLen)
 	iv := r.Bytes(ivLen)
-	ct := r.Bytes([]int{32, 0, 1, 31, 1000}[r.Intn(5)])
+	ct := r.Bytes(ctLen)
 	mac := r.Bytes(32)
 	if dklen >= 32 && dklen <= 4096 && c >= 0 {
 		dk := pbkdf2.Key([]byte(pass), salt, c, dklen, sha256.New)
